@@ -5,7 +5,8 @@
    [tx] is the expression refactoring Migrate13_3 applies (refactor.Template): every theorem holds for any function. *)
 From Coq Require Import List NArith Bool String.
 From Verif Require Import lib.Json gen.MigrationTable gen.AssertSites model.Migrate model.MigrateValid model.MigrateSites
-  proofs.MigrateProofs proofs.MigrateValidProofs proofs.MigrateStepwiseProofs proofs.MigrateRewriteProofs proofs.MigrateSitesProofs.
+  proofs.MigrateProofs proofs.MigrateValidProofs proofs.MigrateStepwiseProofs proofs.MigrateRewriteProofs proofs.MigrateFrameProofs proofs.MigrateFullProofs
+  proofs.MigrateSitesProofs.
 Import ListNotations.
 
 (* a definition already at the current version (or newer) is returned untouched: the very input, no UUID drawn *)
@@ -57,36 +58,70 @@ Theorem c16_graph_preserved : forall tx j to fresh j' fresh',
 Proof. exact graph_preserved. Qed.
 Print Assumptions c16_graph_preserved.
 
-(* a definition that is valid at its version (model/MigrateValid.v: the current reader's checks on the members migrations
-   write, minus what later migrations establish) loads at the current version after MigrateToLatest.
-   PARTIAL: the hypothesis is the strict variant, which in addition wants the result_name of call_classifier,
-   call_resthook, call_webhook, open_ticket and transfer_airtime actions within the 64 characters of 13.6 already in the
-   source.  Missing for the full statement: Migrate13_6 does not shorten those (finding F12, see c16_valid_after_refuted).
-   Satisfiable: proofs/MigrateValidProofs.v, Example valid_after_applies. *)
-Theorem c16_valid_after_partial : forall tx j fresh j' fresh',
+(* a definition that is valid at its version loads at the current version after MigrateToLatest.
+   "Valid" (model/MigrateValid.v) restates definition.ReadFlow's checks on every member some migration writes: header,
+   language, localization, result / category names, template references (valid_source_with / valid_current) AND the checks
+   that depend on the text of a template member Migrate13_3 rewrites: required texts, attachments, "exactly one of id and
+   matcher" references (texts_ok) -- minus, for a source version, what later migrations establish.
+   Hypothesis on the refactoring function, [tx_keeps]: it keeps empty texts empty, non-empty texts non-empty and does not
+   change whether a text is an acceptable attachment.  It is checked against the real refactor.Template on every text of
+   every generated definition on every run (model/MigrateCorr.v), and is satisfiable (Example tx_keeps_identity).
+   PARTIAL: the hypothesis on the source is the strict variant, which in addition wants the result_name of
+   call_classifier, call_resthook, call_webhook, open_ticket and transfer_airtime actions within the 64 characters of 13.6
+   already in the source.  Missing for the full statement: Migrate13_6 does not shorten those (finding F12, see
+   c16_valid_after_refuted).  Satisfiable: Examples valid_after_applies, valid_after_full_applies.
+   Everything else ReadFlow checks is on members the migrations leave as they are: c16_frame. *)
+Theorem c16_valid_after_partial : forall tx, tx_keeps tx -> forall j fresh j' fresh',
+  valid_source_full true j = true ->
+  migrate_to_latest tx j fresh = (MOut j', fresh') ->
+  valid_current_full j' = true.
+Proof. exact valid_after_full. Qed.
+Print Assumptions c16_valid_after_partial.
+
+(* the same without the template-text checks needs no hypothesis on tx *)
+Theorem c16_valid_after_core_partial : forall tx j fresh j' fresh',
   valid_source_with true j = true ->
   migrate_to_latest tx j fresh = (MOut j', fresh') ->
   valid_current j' = true.
 Proof. exact valid_after. Qed.
-Print Assumptions c16_valid_after_partial.
+Print Assumptions c16_valid_after_core_partial.
 
 (* the full statement is false of the code as it is: a definition valid at 13.5 whose migrated form the reader refuses *)
 Theorem c16_valid_after_refuted :
-  exists j, valid_source j = true
-    /\ match fst (migrate_to_latest (fun x => x) j []) with MOut j' => valid_current j' = false | _ => False end.
-Proof. exact valid_after_refuted. Qed.
+  exists j, valid_source_full false j = true
+    /\ match fst (migrate_to_latest (fun x => x) j []) with MOut j' => valid_current_full j' = false | _ => False end.
+Proof. exact valid_after_full_refuted. Qed.
 Print Assumptions c16_valid_after_refuted.
 
-(* templates preserved, PARTIAL: Migrate13_3 changes a definition's nodes (and every member other than `localization`)
-   only through the refactoring function it applies -- with the identity in its place everything comes back as it was.
+(* the frame, for every migration, every target and every tx: outside the members the migrations are written for
+   (flow: nodes, localization, language, spec_version; node: actions, router; action: templating, template,
+   template_variables, name, category; router: result_name, categories) a migrated definition is the source -- a member
+   that no catalogue path starts at is the same JSON, any other keeps its shape (same constructors, array lengths,
+   object keys in order) and each of its texts is the original with tx applied zero or more times *)
+Theorem c16_frame : forall tx j to fresh j' fresh',
+  migrate_to tx j to fresh = (MOut j', fresh') ->
+  exists f f', j = JObj f /\ j' = JObj f' /\ flow_frame tx f f'.
+Proof. exact migrate_frame. Qed.
+Print Assumptions c16_frame.
+
+(* templates preserved, PARTIAL, for an arbitrary tx: Migrate13_3 gives back every member of the definition other than
+   `localization` in its shape, every text in it being the original with tx applied zero or more times (more than once
+   only if two catalogue paths of one action reached the same text).  `localization` is excepted because translations of
+   catalogued members are re-written as arrays of texts (a non-text element becomes ""), as the Go code does.
    Missing for the full statement: (i) that refactor.Template's output evaluates like its input with @webhook read as
    @webhook.json is property C11's subject, not modelled here; (ii) that the catalogue reaches every template position
    (it does not reach translations of a member the base object lacks: known finding) is checked on the implementation
    by the direct oracle (every text of nodes and localization evaluated before and after the step to 13.3). *)
-Theorem c16_templates_preserved_partial : forall fresh f k,
+Theorem c16_templates_preserved_partial : forall tx fresh f k,
+  k <> k_localization -> orel tx (olookup k f) (olookup k (fst (migrate_13_3 tx fresh f))).
+Proof. exact migrate_13_3_parametric. Qed.
+Print Assumptions c16_templates_preserved_partial.
+
+(* with the identity in place of tx nothing but `localization` changes at all *)
+Theorem c16_13_3_identity : forall fresh f k,
   k <> k_localization -> olookup k (fst (migrate_13_3 idtx fresh f)) = olookup k f.
 Proof. exact migrate_13_3_only_through_tx. Qed.
-Print Assumptions c16_templates_preserved_partial.
+Print Assumptions c16_13_3_identity.
 
 (* finite obligation behind c16_valid_after_partial, over the generated template catalogue: no path Migrate13_3 rewrites
    starts at, or below `templating` reaches, a member that valid_current looks at *)
@@ -101,6 +136,11 @@ Theorem c16_latest_establishes_all : forall from,
   = Some (true, true, true).
 Proof. exact latest_flags. Qed.
 Print Assumptions c16_latest_establishes_all.
+
+(* finite obligation behind c16_valid_after_partial: no catalogue path starts at the `type` member *)
+Theorem c16_heads_avoid_type : heads_avoid_type = true.
+Proof. exact heads_avoid_type_true. Qed.
+Print Assumptions c16_heads_avoid_type.
 
 (* finite obligations over the registration table generated from the source *)
 Theorem c16_registered_known : registered_known = true.
